@@ -235,6 +235,14 @@ impl T31Spec {
                 pointer_order.swap(i, j);
             }
         }
+        // beyond well-formed (totality checks only): some blocks referenced more than once
+        if ALLOW_NON_FINITE.with(|a| a.get()) && !blocks.is_empty() && tape.draw(8) == 7 {
+            let extra = 1 + tape.draw(12) as usize;
+            for _ in 0..extra {
+                let j = tape.draw(blocks.len() as u64) as usize;
+                pointer_order.push(j);
+            }
+        }
         let gaps_v: Vec<usize> = blocks
             .iter()
             .map(|_| if gaps && tape.draw(4) == 3 { 1 + tape.draw(40) as usize } else { 0 })
@@ -254,9 +262,10 @@ impl T31Spec {
 
     pub fn encode(&self, r: &mut Rng) -> (Vec<u8>, T31Ref) {
         let n = self.blocks.len();
+        let np = self.pointer_order.len();
         // body: 32-byte data header + pointers + blocks
         let pointers_off = 32usize;
-        let mut cursor = pointers_off + 4 * n;
+        let mut cursor = pointers_off + 4 * np;
         let mut block_off = vec![0usize; n];
         for (i, b) in self.blocks.iter().enumerate() {
             cursor += self.gaps[i];
@@ -292,7 +301,7 @@ impl T31Spec {
             body[28] = r.below(256) as u8; // spot blanking
             body[29] = r.below(256) as u8; // azimuth indexing mode
         }
-        body[30..32].copy_from_slice(&be16(n as u16));
+        body[30..32].copy_from_slice(&be16(np as u16));
         // pointers (relative to the start of the data header, i.e. of the body)
         for (k, bi) in self.pointer_order.iter().enumerate() {
             let o = pointers_off + 4 * k;
@@ -510,9 +519,14 @@ pub fn clutter_filter_map(tape: &mut Tape, r: &mut Rng, max_segments: usize, big
         2 => tape.draw(max_segments as u64 + 1) as usize,
         _ => max_segments,
     };
-    let zone_mode = tape.weighted(&[5, 2, 1]) as u64;
+    let zone_mode = [0u64, 1, 2, 5][tape.weighted(&[5, 2, 1, 2])];
     let big_at = if big_zone && nseg > 0 && tape.draw(3) == 2 {
-        Some((tape.draw(nseg as u64) as usize, tape.draw(360) as usize, 26 + tape.draw(65510) as usize))
+        // boundary counts (powers of two, multiples of a frame's worth of zones, the maximum) and arbitrary ones
+        let count = match tape.weighted(&[2, 3]) {
+            0 => 26 + tape.draw(65510) as usize,
+            _ => [16384usize, 16383, 16385, 604, 1208, 1812, 32768, 65535, 4096, 256][tape.draw(10) as usize],
+        };
+        Some((tape.draw(nseg as u64) as usize, tape.draw(360) as usize, count))
     } else {
         None
     };
@@ -539,6 +553,14 @@ pub fn clutter_filter_map_with(r: &mut Rng, nseg: usize, zone_mode: u64, big_at:
                 1 => r.below(26) as usize,
                 2 => r.below(2) as usize * 25,
                 3 => 40 + r.below(21) as usize,
+                5 => {
+                    // mostly short lists, now and then a long one of varying length
+                    if r.below(50) == 0 {
+                        65 + r.below(400) as usize
+                    } else {
+                        r.below(6) as usize
+                    }
+                }
                 _ => r.below(2) as usize,
             };
             if let Some((bs, ba, bc)) = big_at {
